@@ -207,3 +207,139 @@ def check_generated(E, R, data, k, c, testnet, account, start, ln, mnemonic, pas
 def interval(E, ln):
     start = E.bv("start", 31) if ln == 0 else E.bv("start", 32, hi=2 ** 31 - ln)
     return start, start + ln
+
+
+# ------------------------------------------------------------------------------- leaf classification
+PUB_VERSIONS = {v for (p, t, kind), v in SLIP132.items() if kind == "pub"}
+PRV_VERSIONS = {v for (p, t, kind), v in SLIP132.items() if kind == "prv"}
+TEST_VERSIONS = {v for (p, t, kind), v in SLIP132.items() if t}
+
+
+def leaves(obj, path=()):
+    """all leaves of nested dict/list structures with their positions"""
+    if isinstance(obj, dict):
+        for k, v in obj.items():
+            yield from leaves(v, path + (k,))
+    elif isinstance(obj, (list, tuple)):
+        for i, v in enumerate(obj):
+            yield from leaves(v, path + (i,))
+    else:
+        yield path, obj
+
+
+def _concrete_prefix(b, n):
+    out = []
+    for x in list(b)[:n]:
+        if not isinstance(x, int):
+            return None
+        out.append(x)
+    return bytes(out)
+
+
+def classify(E, R, leaf):
+    """-> (class, network) with class in path | address | sec | xpub | secret:<kind> | none | unknown and
+    network in main | test | None.  Classification is by the *term* (what the value is made of), not by where it sits."""
+    from sx.values import SxStr, SxChar
+    if leaf is None:
+        return "none", None
+    if E.symbolic:
+        from sx import text
+        if isinstance(leaf, text.SxText):
+            return "secret:text", None
+        if isinstance(leaf, cm.B58C):
+            p = leaf.payload
+            n = len(p)
+            if n == 21:
+                v = _concrete_prefix(p, 1)
+                if v is not None and v[0] in (0x00, 0x05):
+                    return "address", "main"
+                if v is not None and v[0] in (0x6f, 0xc4):
+                    return "address", "test"
+                return "unknown", None
+            if n == 78:
+                v = _concrete_prefix(p, 4)
+                if v is None:
+                    return "unknown", None
+                ver = int.from_bytes(v, "big")
+                net = "test" if ver in TEST_VERSIONS else "main"
+                if ver in PUB_VERSIONS:
+                    # a public serialisation must carry a SEC point, never 00||scalar
+                    from sx import env
+                    return ("xpub", net) if env._sec_provenance(p[45:]) is not None else ("secret:xpub-with-private-bytes", net)
+                if ver in PRV_VERSIONS:
+                    return "secret:xprv", net
+                return "unknown", None
+            if n in (33, 34):
+                v = _concrete_prefix(p, 1)
+                if v is not None and v[0] in (0x80, 0xef):
+                    return "secret:wif", "main" if v[0] == 0x80 else "test"
+            return "unknown", None
+        if isinstance(leaf, (str, SxStr)):
+            s = leaf
+            its = list(s.items) if isinstance(s, SxStr) else list(s)
+            if len(its) >= 1 and its[0] in ("m", "M") and (len(its) == 1 or its[1] == "/"):
+                return "path", _path_network(its)
+            if len(its) >= 3 and its[0] in ("b", "t") and its[1] in ("c", "b") and its[2] == "1" and \
+                    all(isinstance(i, str) or (isinstance(i, SxChar) and i.alphabet == "qpzry9x8gf2tvdw0s3jn54khce6mua7l") for i in its[3:]):
+                return "address", "main" if its[0] == "b" else "test"
+            if len(its) == 66 and all((isinstance(i, str) and i in "0123456789abcdef") or
+                                      (isinstance(i, SxChar) and i.alphabet == "0123456789abcdef") for i in its):
+                from sx import env
+                b = R.keys.bytes.fromhex(s) if False else None
+                return "sec", None
+            if len(its) == 8 and all(isinstance(i, str) or (isinstance(i, SxChar) and i.alphabet in ("0123456789abcdef", "0123456789ABCDEF")) for i in its):
+                return "fingerprint", None
+            if isinstance(s, str):
+                return "text:" + s, None
+        return "unknown", None
+    # native
+    if not isinstance(leaf, str):
+        return "unknown", None
+    import re
+    if re.fullmatch(r"[mM](/\d+'?)*", leaf):
+        m = re.fullmatch(r"[mM]/(44|49|84)'/(\d+)'(/.*)?", leaf)
+        return "path", (None if not m else "main" if m.group(2) == "0" else "test" if m.group(2) == "1" else "other")
+    if re.fullmatch(r"0[23][0-9a-f]{64}", leaf):
+        return "sec", None
+    if re.fullmatch(r"(bc|tb)1[qpzry9x8gf2tvdw0s3jn54khce6mua7l]{6,87}", leaf):
+        return "address", "main" if leaf.startswith("bc") else "test"
+    try:
+        p = cm.b58_payload(E, R, leaf)
+    except Exception:
+        p = None
+    if p is not None:
+        if len(p) == 21 and p[0] in (0, 5, 0x6f, 0xc4):
+            return "address", "main" if p[0] in (0, 5) else "test"
+        if len(p) == 78:
+            ver = int.from_bytes(p[:4], "big")
+            net = "test" if ver in TEST_VERSIONS else "main"
+            if ver in PUB_VERSIONS:
+                return ("xpub", net) if p[45] in (2, 3) else ("secret:xpub-with-private-bytes", net)
+            if ver in PRV_VERSIONS:
+                return "secret:xprv", net
+        if len(p) in (33, 34) and p[0] in (0x80, 0xef):
+            return "secret:wif", "main" if p[0] == 0x80 else "test"
+    if re.fullmatch(r"[0-9A-Fa-f]{8}", leaf):
+        return "fingerprint", None
+    return "text:" + leaf, None
+
+
+def _path_network(its):
+    """coin type of a BIP44/49/84 path text: m/P'/c'/..."""
+    from sx.values import Numeral
+    # split on '/'
+    comps = [[]]
+    for i in its:
+        if i == "/":
+            comps.append([])
+        else:
+            comps[-1].append(i)
+    if len(comps) < 3:
+        return None
+    p = comps[1]
+    if "".join(x for x in p if isinstance(x, str)) not in ("44'", "49'", "84'") or len(p) != 3:
+        return None
+    cpart = comps[2]
+    if len(cpart) == 2 and cpart[1] == "'" and cpart[0] in ("0", "1"):
+        return "main" if cpart[0] == "0" else "test"
+    return "other"
